@@ -38,6 +38,7 @@ type effects struct {
 	p        *Prog
 	mayWrite map[*ssa.Function]map[int]bool // param index -> may write through it
 	retDeriv map[*ssa.Function]map[int]bool // returns a reference derived from param i (-1: from a global)
+	keepsArg map[*ssa.Function]map[int]bool // stores a reference derived from param i into memory that outlives the call
 }
 
 // derived computes, inside fn, the set of values derived (by address arithmetic,
@@ -177,6 +178,9 @@ func (e *effects) writesOf(fn *ssa.Function, d map[ssa.Value]string, seed func(s
 			case *ssa.Store:
 				if r := get(x.Addr); r != "" {
 					out = append(out, effWrite{fn, x.Pos(), "store", r})
+				} else if r := get(x.Val); r != "" && strings.HasPrefix(r, "G:") && (isRefType(x.Val.Type()) || isAggregate(x.Val.Type())) && !strings.HasPrefix(addrRoot(x.Addr), "alloc:") {
+					// a reference into package-level storage is planted in an object that outlives the call
+					out = append(out, effWrite{fn, x.Pos(), "publishes a reference to", r})
 				}
 			case *ssa.MapUpdate:
 				if r := get(x.Map); r != "" {
@@ -216,6 +220,9 @@ func (e *effects) writesOf(fn *ssa.Function, d map[ssa.Value]string, seed func(s
 						if r := get(a); r != "" && e.mayWrite[callee][i] {
 							out = append(out, effWrite{fn, x.Pos(), "call " + ssaKey(callee) + " (writes through arg " + itoa(i) + ")", r})
 						}
+						if r := get(a); r != "" && strings.HasPrefix(r, "G:") && e.keepsArg[callee][i] {
+							out = append(out, effWrite{fn, x.Pos(), "call " + ssaKey(callee) + " keeps (stores in an object) a reference to", r})
+						}
 					}
 					continue
 				}
@@ -232,12 +239,13 @@ func (e *effects) writesOf(fn *ssa.Function, d map[ssa.Value]string, seed func(s
 }
 
 func computeEffects(p *Prog) *effects {
-	e := &effects{p: p, mayWrite: map[*ssa.Function]map[int]bool{}, retDeriv: map[*ssa.Function]map[int]bool{}}
+	e := &effects{p: p, mayWrite: map[*ssa.Function]map[int]bool{}, retDeriv: map[*ssa.Function]map[int]bool{}, keepsArg: map[*ssa.Function]map[int]bool{}}
 	var fns []*ssa.Function
 	for _, f := range p.SFuncs {
 		fns = append(fns, f)
 		e.mayWrite[f] = map[int]bool{}
 		e.retDeriv[f] = map[int]bool{}
+		e.keepsArg[f] = map[int]bool{}
 	}
 	sort.Slice(fns, func(i, j int) bool { return ssaKey(fns[i]) < ssaKey(fns[j]) })
 	changed := true
@@ -262,6 +270,10 @@ func computeEffects(p *Prog) *effects {
 				}
 				if !e.retDeriv[f][i] && returnsDerived(f, d, seed) {
 					e.retDeriv[f][i] = true
+					changed = true
+				}
+				if !e.keepsArg[f][i] && keepsDerived(e, f, d, seed) {
+					e.keepsArg[f][i] = true
 					changed = true
 				}
 			}
@@ -304,4 +316,34 @@ func returnsDerived(f *ssa.Function, d map[ssa.Value]string, seed func(ssa.Value
 func isInitFn(f *ssa.Function) bool {
 	k := ssaKey(f)
 	return strings.HasPrefix(k, "init@") || k == "init"
+}
+
+// keepsDerived: fn stores a reference derived from the seeded parameter into memory that is not a local
+// variable (another parameter's object, a global), or hands it to a callee that does.
+func keepsDerived(e *effects, f *ssa.Function, d map[ssa.Value]string, seed func(ssa.Value) string) bool {
+	get := func(v ssa.Value) string {
+		if r, ok := d[v]; ok {
+			return r
+		}
+		return seed(v)
+	}
+	for _, b := range f.Blocks {
+		for _, ins := range b.Instrs {
+			switch x := ins.(type) {
+			case *ssa.Store:
+				if get(x.Val) != "" && (isRefType(x.Val.Type()) || isAggregate(x.Val.Type())) && get(x.Addr) == "" && !strings.HasPrefix(addrRoot(x.Addr), "alloc:") {
+					return true
+				}
+			case ssa.CallInstruction:
+				if cal := x.Common().StaticCallee(); cal != nil && e.keepsArg[cal] != nil {
+					for i, a := range x.Common().Args {
+						if get(a) != "" && e.keepsArg[cal][i] {
+							return true
+						}
+					}
+				}
+			}
+		}
+	}
+	return false
 }
